@@ -74,11 +74,6 @@ def case_strategy(draw, max_size):
         scale = (sum(sizes) // max(1, per_send)) // 4000 + 1
         sizes = [max(1, x // scale) for x in sizes]
     via = draw(st.sampled_from(["send_data", "send_data", "send_message"]))
-    if reader["close_after"] is not None:
-        # a protocol-level send_message() racing the loss of the link can block forever (receiver thread stopped with the
-        # block still queued): that is C06's known finding (caller gets neither reply nor timeout); here the peer-closes
-        # class is run on the transport API only
-        via = "send_data"
     active = draw(st.booleans())
     sched = draw(
         st.one_of(st.just({"seed": 0}), st.builds(lambda s, p: {"seed": s, "switch": p}, st.integers(1, 2**31), st.sampled_from([0.05, 0.5])))
